@@ -131,6 +131,32 @@ def run(F, ck, tier):
                       'CONDITIONAL KEY BINDING: in conditionally_verify_cyclic_proof the %s that ties the inner proof\'s embedded verifier data to this circuit\'s own depends on %s: '
                       'when the condition is off the embedded data is compared with itself, so a chain can be started from a proof of any circuit and continued under this circuit\'s key' % (e.name, ', '.join(sel)), e.loc())
         ck.floor('R20.3', 'verifier-data equalities in conditionally_verify_cyclic_proof', nconn, 2)
+    # ---------------------------------------------------------------- R20.7 the dummy circuit reproduces every construction input of the shape
+    ck.rule('R20.7', 'dummy_circuit, which must rebuild a circuit whose CommonCircuitData equals the given one (it asserts so), reads every field of it that is an INPUT of circuit construction '
+                     '(config, gates, num_public_inputs, luts): a field it never reads keeps its default in the rebuilt circuit, so the closing assertion fails for every shape where that field is not the default')
+    dc = [f for f in F.find('recursion::dummy_circuit::dummy_circuit', crate='plonky2') if f.body is not None] or \
+        [f for f in F.fns.values() if f.crate == 'plonky2' and f.name == 'dummy_circuit' and f.body is not None and '::' not in f.qual]
+    if len(dc) != 1:
+        ck.ob('R20.7', 'anchor', False, 'ANCHOR-MISSING recursion::dummy_circuit::dummy_circuit (%d)' % len(dc))
+    else:
+        read = set()
+        for x in walk(dc[0].body):
+            if x.get('k') == 'Field':
+                e = x['e']
+                while e.get('k') in ('Un', 'Ref'):
+                    e = e['e']
+                if e.get('k') == 'Local' and 'CommonCircuitData' in (dc[0].ty(e) or ''):
+                    read.add(x['n'])
+        have = {n for n, t in (F.adt_fields('CommonCircuitData', crate='plonky2') or [])}
+        for fld in ('config', 'gates', 'num_public_inputs', 'luts'):
+            if fld not in have:
+                ck.ob('R20.7', 'dummy.reads:' + fld, False, 'ANCHOR-MISSING CommonCircuitData.%s' % fld)
+                continue
+            okr = fld in read
+            ck.ob('R20.7', 'dummy.reads:' + fld, okr, 'read while rebuilding the circuit' if okr else
+                  'DUMMY CIRCUIT IGNORES A CONSTRUCTION INPUT: dummy_circuit never reads common_data.%s, so the circuit it builds has the default there and its closing assert_eq!(&circuit.common, common_data) '
+                  'panics for every shape with a non-default %s: no dummy proof can be produced for such shapes (dummy_proof_and_vk, conditionally_verify_proof_or_dummy, cyclic base cases)' % (fld, fld),
+                  '%s:%d' % (dc[0].file, dc[0].line))
     vofields = F.adt_fields('VerifierOnlyCircuitData', crate='plonky2') or []
     for f, t in vofields:
         E.check('R20.3', dict(id='cyclic.check:' + f, fn='recursion::cyclic_recursion::check_cyclic_proof_verifier_data', kind='guard',
